@@ -1,4 +1,5 @@
 import TonicModel.Lemmas.FramingWire
+import TonicModel.Lemmas.FramingDecLimit
 /-
 C06 — Message size limits are enforced exactly and without collateral loss.
 -/
@@ -6,22 +7,30 @@ namespace C06
 open Framing Spec.Framing
 variable {α : Type}
 
-/-- **Outgoing limit, exactly.**  A message is refused iff its on-the-wire payload is over the
-configured limit (OUT_OF_RANGE) or, failing that, over 2^32−1 bytes (RESOURCE_EXHAUSTED);
-otherwise it is framed. -/
+/-- **Outgoing limit, exactly.**  A message the encoder could serialize is refused iff its
+on-the-wire payload is over the configured limit (OUT_OF_RANGE) or, failing that, over 2^32−1
+bytes (RESOURCE_EXHAUSTED); otherwise it is framed.  A message `Encoder::encode` itself fails on
+is refused with INTERNAL whatever its size. -/
 theorem C06_encode_limit (cd : Codec α) (cfg : EncCfg) (m : α) :
     let len := (Framing.payload cd cfg m).length
-    (encodeErr cd cfg m = some ⟨11, .tooLargeEnc⟩ ↔ ∃ l, cfg.maxSize = some l ∧ len > l) ∧
-    (encodeErr cd cfg m = some ⟨8, .over4G⟩ ↔ (∀ l, cfg.maxSize = some l → len ≤ l) ∧ len > u32Max) ∧
-    (encodeErr cd cfg m = none ↔ (∀ l, cfg.maxSize = some l → len ≤ l) ∧ len ≤ u32Max) := by
+    (encodeErr cd cfg m = some ⟨13, .encode⟩ ↔ cd.serFail m = true) ∧
+    (encodeErr cd cfg m = some ⟨11, .tooLargeEnc⟩ ↔ cd.serFail m = false ∧ ∃ l, cfg.maxSize = some l ∧ len > l) ∧
+    (encodeErr cd cfg m = some ⟨8, .over4G⟩ ↔
+      cd.serFail m = false ∧ (∀ l, cfg.maxSize = some l → len ≤ l) ∧ len > u32Max) ∧
+    (encodeErr cd cfg m = none ↔ cd.serFail m = false ∧ (∀ l, cfg.maxSize = some l → len ≤ l) ∧ len ≤ u32Max) := by
   simp only [encodeErr]
-  cases cfg.maxSize with
-  | none =>
-    by_cases h : (Framing.payload cd cfg m).length > u32Max <;> simp [h] <;> omega
-  | some l =>
-    by_cases h1 : (Framing.payload cd cfg m).length > l
-    · simp [h1]; omega
-    · by_cases h2 : (Framing.payload cd cfg m).length > u32Max <;> simp [h1, h2] <;> omega
+  cases hsf : cd.serFail m with
+  | true => simp
+  | false =>
+    simp only [Bool.false_eq_true, ↓reduceIte, true_and]
+    refine ⟨by cases cfg.maxSize <;> simp <;> split <;> simp, ?_⟩
+    cases cfg.maxSize with
+    | none =>
+      by_cases h : (Framing.payload cd cfg m).length > u32Max <;> simp [h] <;> omega
+    | some l =>
+      by_cases h1 : (Framing.payload cd cfg m).length > l
+      · simp [h1]; omega
+      · by_cases h2 : (Framing.payload cd cfg m).length > u32Max <;> simp [h1, h2] <;> omega
 
 /-- **No collateral loss (server).**  For every schedule of the message source — messages,
 `Pending`s, source errors, oversized messages at any position — the response body delivers
@@ -92,17 +101,137 @@ theorem C06_within_limit_not_refused (cd : Codec α) (cfg : DecCfg) (f a b c d :
     | none => simp [hc] at he
     | some e => simpa [Dec.decodeChunk, hc, hn] using key (some e)
 
-/-- **Incoming limit, end to end.**  For any chunking and readiness pattern, the messages a
-stream yields are a prefix of the reference decoding, whose `header` judgement refuses a frame
-for its size iff its declared length exceeds the limit (4 MiB by default). -/
-theorem C06_decode_exact (cd : Codec α) (cfg : DecCfg) (flag : UInt8) (len : Nat)
-    (hf : flag = 0 ∨ (flag = 1 ∧ cfg.enc.isSome)) :
-    (header (recvOf cd cfg) flag len = .error .tooLarge ↔ len > cfg.maxSize.getD (4 * 1024 * 1024)) := by
-  rcases hf with rfl | ⟨rfl, he⟩
-  · simp only [header, recvOf, DecCfg.limit, defaultMaxRecv, ↓reduceIte]
-    by_cases h : len > cfg.maxSize.getD (4 * 1024 * 1024) <;> simp [h]
-  · simp only [header, recvOf, DecCfg.limit, defaultMaxRecv, he, ↓reduceIte]
-    by_cases h : len > cfg.maxSize.getD (4 * 1024 * 1024) <;> simp [h]
+/-- the reading of a body `frames xs ++ header(f, len) ++ rest` by the reference decoder -/
+private theorem spec_of_data (cd : Codec α) (cfg : DecCfg) (xs : List (Sent α)) (laws : CodecLawsOn cd xs)
+    (hxs : ∀ x ∈ xs, SentOk cd cfg x) (f : UInt8) (len : Nat) (rest : Bytes) (hf : FlagOk cfg f)
+    (h32 : len < 4294967296) (evs : List BodyEv)
+    (hdata : dataOf evs = Spec.Framing.frames (xs.map (wireOf cd cfg.enc)) ++ f :: (u32be len ++ rest)) :
+    specFrom cd cfg Dec.init (dataOf evs) =
+      consAll (xs.map (·.msg)) (if len > cfg.limit then ([], .bad .tooLarge)
+        else batchBody (recvOf cd cfg) len (f == 1) rest) := by
+  simp only [specFrom, Dec.init, List.nil_append, hdata]
+  rw [(batch_frames_append cd cfg xs laws hxs _).1, batch_header cd cfg f len rest hf h32]
+
+/-- **Incoming limit under any chunking: an oversized message is refused, with OUT_OF_RANGE, as
+soon as its length prefix has been read, and nothing is lost before it.**  (`hk`: the stream is a
+gRPC message stream — a request, or a response with HTTP status 200; the body of any other response is
+dropped unread and classified by its status, `C04_http_table_any_body`.)  Let the body deliver —
+in chunks cut anywhere, with `Pending`s anywhere — the frames of valid messages `xs`, then a
+5-byte prefix with an acceptable flag announcing `len > limit`, then anything at all (`rest`:
+nothing, part of a payload, more frames).  Then the stream yields exactly the messages `xs`, in
+order, then OUT_OF_RANGE, then `None` for ever.  (`Dec.chunkReserve_le`, property theorem
+`C06_no_reservation_over_limit`: no `decode_chunk` call on the way reserves more than the limit.) -/
+theorem C06_oversize_refused_any_chunking (cd : Codec α) (cfg : DecCfg) (hk : cfg.skipsBody = false)
+    (xs : List (Sent α)) (laws : CodecLawsOn cd xs) (hxs : ∀ x ∈ xs, SentOk cd cfg x)
+    (f : UInt8) (len : Nat) (rest : Bytes) (hf : FlagOk cfg f) (h32 : len < 4294967296)
+    (hover : len > cfg.limit)
+    (evs : List BodyEv) (hplain : PlainEvs evs = true)
+    (hdata : dataOf evs = Spec.Framing.frames (xs.map (wireOf cd cfg.enc)) ++ f :: (u32be len ++ rest))
+    (n : Nat) (hn : evs.length + xs.length < n) :
+    ∃ k, nonPending (Dec.run cd cfg n Dec.init evs)
+      = xs.map (fun x => Item.msg x.msg) ++ .err ⟨11, .tooLargeDec⟩ :: List.replicate k .none := by
+  have hx := spec_of_data cd cfg xs laws hxs f len rest hf h32 evs hdata
+  simp only [hover, ↓reduceIte, consAll, List.append_nil] at hx
+  obtain ⟨k, hrun⟩ := run_plain cd cfg hk n Dec.init evs _ _ _ (by simp [PhaseOk, Dec.init]) hplain hx rfl
+    (by simpa using hn)
+  exact ⟨k, by simpa [plainTail, plainEnd, stOfBad, List.map_map, Function.comp_def] using hrun⟩
+
+/-- **Refused before memory is reserved for it.**  `Dec.chunkReserve cfg s` is the
+`buf.reserve(len)` a `decode_chunk` call makes in state `s`.  In *every* state — hence in every
+state any body, chunking and readiness pattern can lead to — it is at most the limit; and it is
+the only way out of the header phase: a call that ends in the body phase for `len`, or yields a
+message, has made the reservation `len ≤ limit`, and a call that reserves nothing stays in the
+header phase and yields nothing. -/
+theorem C06_no_reservation_over_limit (cd : Codec α) (cfg : DecCfg) (s : DecSt) :
+    (∀ r, Dec.chunkReserve cfg s = some r → r ≤ cfg.limit) ∧
+    (s.ph = .hdr →
+      (∀ len comp, (Dec.decodeChunk cd cfg s).1.ph = .body len comp →
+        Dec.chunkReserve cfg s = some len ∧ len ≤ cfg.limit) ∧
+      (∀ m, (Dec.decodeChunk cd cfg s).2 = .item m → ∃ len, Dec.chunkReserve cfg s = some len ∧ len ≤ cfg.limit) ∧
+      (Dec.chunkReserve cfg s = none →
+        (Dec.decodeChunk cd cfg s).1.ph = .hdr ∧ ∀ m, (Dec.decodeChunk cd cfg s).2 ≠ .item m)) := by
+  refine ⟨fun r h => chunkReserve_le cfg s r h, fun hph => ?_⟩
+  obtain ⟨h1, h2, h3⟩ := decodeChunk_reserve cd cfg s hph
+  refine ⟨fun len comp h => ⟨h1 len comp h, chunkReserve_le cfg s len (h1 len comp h)⟩, fun m h => ?_, h3⟩
+  obtain ⟨len, hl⟩ := h2 m h
+  exact ⟨len, hl, chunkReserve_le cfg s len hl⟩
+
+/-- **Incoming limit, exactly, end to end.**  With the body as in
+`C06_oversize_refused_any_chunking` but `len` arbitrary: the stream's answer to that frame — its
+first result after the messages `xs` — is OUT_OF_RANGE "message too large" **iff** the declared
+length exceeds the limit (4 MiB unless configured).  (Within the limit the answer is the message,
+`None` / `Unexpected EOF` / the HTTP-status error when the payload never completes, or the
+decompressor's / decoder's error — never the size error.) -/
+theorem C06_decode_exact (cd : Codec α) (cfg : DecCfg) (hk : cfg.skipsBody = false)
+    (xs : List (Sent α)) (laws : CodecLawsOn cd xs) (hxs : ∀ x ∈ xs, SentOk cd cfg x)
+    (f : UInt8) (len : Nat) (rest : Bytes) (hf : FlagOk cfg f) (h32 : len < 4294967296)
+    (evs : List BodyEv) (hplain : PlainEvs evs = true)
+    (hdata : dataOf evs = Spec.Framing.frames (xs.map (wireOf cd cfg.enc)) ++ f :: (u32be len ++ rest))
+    (n : Nat) (hn : evs.length + (batch (recvOf cd cfg) (dataOf evs)).1.length < n) :
+    (nonPending (Dec.run cd cfg n Dec.init evs))[xs.length]? = some (.err ⟨11, .tooLargeDec⟩)
+      ↔ len > cfg.maxSize.getD (4 * 1024 * 1024) := by
+  have hlim : cfg.maxSize.getD (4 * 1024 * 1024) = cfg.limit := by simp [DecCfg.limit, defaultMaxRecv]
+  rw [hlim]
+  have hx := spec_of_data cd cfg xs laws hxs f len rest hf h32 evs hdata
+  have hn' : evs.length + (specFrom cd cfg Dec.init (dataOf evs)).1.length < n := by
+    simpa [specFrom, Dec.init] using hn
+  generalize hsp : specFrom cd cfg Dec.init (dataOf evs) = sp at hx hn'
+  obtain ⟨ms, stop⟩ := sp
+  obtain ⟨k, hrun⟩ := run_plain cd cfg hk n Dec.init evs ms stop _ (by simp [PhaseOk, Dec.init]) hplain hsp rfl hn'
+  rw [hrun]
+  have hidx : ∀ (ms2 : List α) (T : List (Item α)),
+      ((xs.map (·.msg) ++ ms2).map Item.msg ++ T)[xs.length]? = (ms2.map Item.msg ++ T)[0]? := by
+    intro ms2 T
+    rw [List.map_append, List.append_assoc, List.getElem?_append_right (by simp)]
+    simp
+  by_cases hover : len > cfg.limit
+  · simp only [hover, iff_true]
+    simp only [hover, ↓reduceIte, consAll, Prod.mk.injEq, List.append_nil] at hx
+    obtain ⟨rfl, rfl⟩ := hx
+    simp only [plainTail, plainEnd, stOfBad]
+    have := hidx [] (Item.err ⟨11, .tooLargeDec⟩ :: List.replicate k Item.none)
+    simp only [List.append_nil, List.map_nil, List.nil_append] at this
+    rw [this]
+    simp
+  · simp only [hover, iff_false]
+    simp only [hover, ↓reduceIte, consAll] at hx
+    generalize hb : batchBody (recvOf cd cfg) len (f == 1) rest = r at hx
+    obtain ⟨ms2, stop2⟩ := r
+    simp only [Prod.mk.injEq] at hx
+    obtain ⟨rfl, rfl⟩ := hx
+    rw [hidx]
+    cases ms2 with
+    | cons m ms2 => simp
+    | nil =>
+      have hstop := batchBody_nil_stop _ _ _ _ _ hb
+      simp only [List.map_nil, List.nil_append, Dec.init]
+      intro h
+      cases htail : plainTail cd cfg none stop
+          (heldFrom cd cfg { buf := [], ph := Phase.hdr, trailers := none } (dataOf evs)) with
+      | none => simp [htail, plainEnd] at h
+      | some e =>
+        simp only [htail, plainEnd, List.getElem?_cons_zero, Option.some.injEq, Item.err.injEq] at h
+        subst h
+        have := plainTail_tooLarge cd cfg stop _ htail
+        rcases hstop with h1 | h1 | h1 <;> simp [h1] at this
+
+/-- **An `Encoder::encode` failure costs nothing before it either.**  If the encoder fails on a
+message that follows any number of `Pending`s and encodable messages, the body delivers the
+frames of exactly those earlier messages and then INTERNAL (`C06_no_collateral_loss_server` /
+`_client` with this `okPrefix` / `finalSt`); nothing of the failed message — neither the reserved
+5-byte prefix nor what the encoder wrote before failing — is sent. -/
+theorem C06_encode_failure_no_collateral_loss (cd : Codec α) (cfg : EncCfg) (hs : cfg.server = true)
+    (pre rest : List (SrcEv α)) (m : α) (hpre : AllOk cd cfg pre) (hm : cd.serFail m = true)
+    (n : Nat) (hn : (pre ++ .item m :: rest).length + 1 < n) :
+    ∃ out, Enc.run cd cfg n Enc.init (pre ++ .item m :: rest)
+        = out ++ [.trailers ⟨13, .encode⟩] ++ List.replicate (n - out.length - 1) .none ∧
+      (∀ o ∈ out, GoodChunk cd cfg o) ∧
+      dataConcat out = framesOf cd cfg (itemsOfEvs pre) := by
+  obtain ⟨h1, h2⟩ := okPrefix_append cd cfg pre (.item m :: rest) hpre
+  obtain ⟨out, hrun, hgood, hdata⟩ := C06_no_collateral_loss_server cd cfg hs (pre ++ .item m :: rest) n hn
+  refine ⟨out, ?_, hgood, ?_⟩
+  · rw [hrun, h2]; simp [finalSt, serFail_encodeErr cd cfg m hm]
+  · rw [hdata, h1]; simp [okPrefix, serFail_encodeErr cd cfg m hm]
 
 /- Non-vacuity: the DESIGN §5.1 witness — [3 B, 3 B, 100 B] against a limit of 10. -/
 def idCodec : Codec Bytes := { ser := id, de := some, deErr := 13, cz := fun _ b => b, dz := fun _ b => some b }
@@ -112,5 +241,21 @@ example :
     let evs : List (SrcEv Bytes) := [.item [1, 2, 3], .item [4, 5, 6], .item (List.replicate 100 7)]
     okPrefix idCodec cfg evs = [[1, 2, 3], [4, 5, 6]] ∧ finalSt idCodec cfg evs = some ⟨11, .tooLargeEnc⟩ := by
   decide
+
+/- Non-vacuity of the hypotheses of `C06_oversize_refused_any_chunking` / `C06_decode_exact`: one
+valid 2-byte message, then a prefix announcing 5 bytes against a limit of 4, nothing after it;
+the bytes cut inside the first payload and inside the oversized prefix, with a `Pending`. -/
+example :
+    let cfg : DecCfg := { enc := none, maxSize := some 4, dir := .request }
+    let xs : List (Sent Bytes) := [⟨[1, 2], false⟩]
+    let evs : List BodyEv := [.data [0, 0, 0, 0, 2, 1], .pending, .data [2, 0, 0, 0], .data [0, 5]]
+    PlainEvs evs = true ∧ FlagOk cfg 0 ∧ 5 > cfg.limit ∧
+      dataOf evs = Spec.Framing.frames (xs.map (wireOf idCodec cfg.enc)) ++ (0 : UInt8) :: (u32be 5 ++ []) ∧
+      (∀ x ∈ xs, SentOk idCodec cfg x) := by
+  refine ⟨by decide, Or.inl rfl, by decide, by decide, ?_⟩
+  intro x hx
+  simp only [List.mem_cons, List.not_mem_nil, or_false] at hx
+  subst hx
+  simp [SentOk, wireOf, idCodec, DecCfg.limit]
 
 end C06
